@@ -446,6 +446,20 @@ func c05Boundary(c *Ctx) {
 			for _, o := range Origins(recv, OriginOpts{}) {
 				_ = o
 			}
+			// the later chunk may be found by a helper that is given position i+1
+			// (it skips chunks without bounds): its result is a later chunk
+			if ex, isEx := recv.(*ssa.Extract); isEx {
+				if call, isCall := ex.Tuple.(*ssa.Call); isCall && call.Call.StaticCallee() != nil && inModule(call.Call.StaticCallee()) {
+					for _, a := range call.Call.Args {
+						if b, ok := a.(*ssa.BinOp); ok && b.Op == token.ADD {
+							if k, ok := b.Y.(*ssa.Const); ok && k.Value != nil && k.Value.ExactString() == "1" {
+								return "later"
+							}
+						}
+					}
+				}
+				return ""
+			}
 			u, ok := recv.(*ssa.UnOp)
 			if !ok {
 				return ""
@@ -501,6 +515,40 @@ func c05Boundary(c *Ctx) {
 				probs = append(probs, "takes the bound of the "+u.chunk+" chunk from its "+u.page+" page instead of its "+wantPage+" page, which is the one adjacent to the boundary ("+p.Pos(u.pos)+")")
 			}
 		}
+		// a chunk without any page with bounds does not break the chain: the
+		// later chunk is searched for (a scan over the chunk indexes that tests
+		// NullPage), not taken at the fixed position i+1
+		scans := false
+		allCalls(fn, false, func(_ *ssa.Function, call ssa.CallInstruction) {
+			sc := call.Common().StaticCallee()
+			if sc == nil || !inModule(sc) || sc.Blocks == nil {
+				return
+			}
+			loopIdx, nullPage := false, false
+			inl := loopBlocks(sc)
+			allInstrs(sc, false, func(_ *ssa.Function, ins ssa.Instruction) {
+				switch x := ins.(type) {
+				case *ssa.IndexAddr:
+					if _, isPhi := x.Index.(*ssa.Phi); isPhi && inl[x.Block()] {
+						if fs, _, _ := fieldChain(x.X); len(fs) > 0 {
+							loopIdx = true
+						}
+					}
+				case ssa.CallInstruction:
+					if x.Common().IsInvoke() && x.Common().Method.Name() == "NullPage" {
+						nullPage = true
+					}
+				}
+			})
+			if loopIdx && nullPage {
+				for _, a := range call.Common().Args {
+					if b, ok := a.(*ssa.BinOp); ok && b.Op == token.ADD {
+						scans = true
+					}
+				}
+			}
+		})
+		c.Check(rule, k+" skips chunks that have no page with bounds", fn.Pos(), scans, k+" compares each chunk with the chunk right after it only: when that one is made of null pages the pair is skipped and the chunks on either side of it are never compared, so an index like [10..15], nulls, [0..5] claims to be ordered")
 		if len(uses) != 2 || !seen["earlier"] || !seen["later"] {
 			probs = append(probs, "expected one bound of each of the two chunks, found "+itoa(len(uses))+" bound reads")
 		}
